@@ -9,6 +9,8 @@
 //          request line, inside the headers, after the headers, inside the body} x stall duration
 //          {T-500 ms, T, T+500 ms, T+1 s} (T = the applicable time-out) x scan phase {0, 250 ms}, then the request
 //          is completed. Stall <= T => 200 and never 408; stall >= T+500 ms => 408 and the connection closed.
+//   time2: two connections on the one worker, each stalled at its own point, the second opened 0/250/500 ms after the
+//          first: each gets its 408 within one scan period after ITS applicable time-out, never earlier.
 #include "common/netsim.h"
 #include "common/runner.h"
 
@@ -232,6 +234,88 @@ static void case_time(const TimeCase& c, vr::Ctx& ctx)
         ctx.sample("{\"time_case\":" + vr::jstr(what) + ",\"status\":" + std::to_string(st) + "}");
 }
 
+// two connections on the same worker, each stalled in its own phase: every connection is judged by its own phase and
+// its own start (the periodic scan walks all peers of the worker in one pass)
+struct Time2Case
+{
+    int headerMs, bodyMs, kindA, kindB, offset;
+};
+static std::vector<Time2Case> gTime2;
+
+static void case_time2(const Time2Case& c, vr::Ctx& ctx)
+{
+    sim::Server srv;
+    auto handler = Http::make_handler<CountHandler>();
+    auto opts    = Http::Endpoint::options().flags(Tcp::Options::ReuseAddr | Tcp::Options::NoDelay).maxRequestSize(4096).headerTimeout(std::chrono::milliseconds(c.headerMs)).bodyTimeout(std::chrono::milliseconds(c.bodyMs));
+    srv.start(handler, opts, 1);
+    uint64_t steps = sim::settle();
+    gRequests      = 0;
+    const std::string req = "POST /t HTTP/1.1\r\nHost: h\r\nContent-Length: 10\r\n\r\n0123456789";
+    const size_t headEnd  = req.find("\r\n\r\n") + 4;
+    size_t stallAt[]      = { 0, 9, 24, headEnd, headEnd + 4 };
+    int kinds[2]          = { c.kindA, c.kindB };
+    int T[2], startAt[2] = { 0, c.offset }, first408[2] = { -1, -1 };
+    for (int i = 0; i < 2; ++i)
+        T[i] = kinds[i] <= 2 ? std::min(c.headerMs, c.bodyMs) : c.bodyMs;
+    std::string what = std::string("header=") + std::to_string(c.headerMs) + "ms body=" + std::to_string(c.bodyMs) + "ms connection A stalls " + kStallNames[c.kindA] + ", connection B (opened " + std::to_string(c.offset) + "ms later) stalls " + kStallNames[c.kindB];
+    ctx.note("time2 " + what);
+    sim::ClientConn cl[2];
+    int now = 0;
+    auto open_conn = [&](int i) {
+        cl[i].connect_to(srv.port);
+        after(steps, true);
+        if (stallAt[kinds[i]] > 0)
+        {
+            cl[i].send_bytes(req.substr(0, stallAt[kinds[i]]));
+            after(steps, true);
+        }
+    };
+    open_conn(0);
+    if (c.offset == 0)
+        open_conn(1);
+    int horizon = std::max(T[0], T[1] + c.offset) + 1000;
+    for (now = 250; now <= horizon; now += 250)
+    {
+        sim::tick(250);
+        after(steps, false);
+        if (c.offset != 0 && now == c.offset)
+            open_conn(1);
+        for (int i = 0; i < 2; ++i)
+        {
+            if (now < startAt[i] || (now == startAt[i] && c.offset != 0 && i == 1))
+                continue;
+            cl[i].pump();
+            if (first408[i] < 0 && status_of(cl[i].received) == 408)
+                first408[i] = now - startAt[i];
+        }
+    }
+    for (int i = 0; i < 2; ++i)
+    {
+        std::string d = "{\"scenario\":" + vr::jstr(what) + ",\"connection\":\"" + (i ? "B" : "A") + "\",\"applicable_timeout_ms\":" + std::to_string(T[i]) + ",\"first_408_after_ms\":" + std::to_string(first408[i]) + ",\"closed_by_server\":" + (cl[i].peerClosed ? "true" : "false") + "}";
+        std::string k = std::string(kStallNames[kinds[i]]) + ":other-connection-" + kStallNames[kinds[1 - i]];
+        if (first408[i] >= 0 && first408[i] <= T[i])
+            ctx.violation("c14:time2:408-before-the-time-out-elapsed:" + k, d);
+        else if (first408[i] < 0 || first408[i] > T[i] + 500)
+            ctx.violation("c14:time2:no-408-within-one-scan-period-after-the-time-out:" + k, d);
+        else if (!cl[i].peerClosed)
+            ctx.violation("c14:time2:connection-not-closed-after-408", d);
+        ctx.outcome(std::string("two connections: ") + (first408[i] < 0 ? "no 408" : "408"));
+    }
+    if (gRequests != 0)
+        ctx.violation("c14:time2:handler-ran-for-timed-out-request", "{\"scenario\":" + vr::jstr(what) + "}");
+    ctx.state(vr::hash_str(what + std::to_string(first408[0]) + "/" + std::to_string(first408[1])));
+    ctx.nontrivial(vr::hash_str(what));
+    for (int i = 0; i < 2; ++i)
+        cl[i].close_orderly();
+    after(steps, true);
+    if (!srv.stop())
+        ctx.violation("c14:endpoint-threads-did-not-terminate", "{\"x\":0}");
+    ctx.count("executions", 1);
+    ctx.count("transitions", steps);
+    if ((vr::hash_str(what) & 7) == 0)
+        ctx.sample("{\"time2_case\":" + vr::jstr(what) + ",\"first_408_after_ms\":[" + std::to_string(first408[0]) + "," + std::to_string(first408[1]) + "]}");
+}
+
 int main(int argc, char** argv)
 {
     vr::Options opt = vr::parse_args(argc, argv);
@@ -246,14 +330,23 @@ int main(int argc, char** argv)
             for (int si = 0; si < 4; ++si)
                 for (int ph : { 0, 250 })
                     gTime.push_back({ p[0], p[1], sp, si, ph });
-    uint64_t nS = gSize.size(), nT = gTime.size();
-    return vr::run(opt, nS + nT, [nS](uint64_t idx, vr::Ctx& ctx) {
+    int pairs2[3][2] = { { 1000, 3000 }, { 3000, 1000 }, { 1000, 1000 } };
+    for (auto& p : pairs2)
+        for (int ka = 0; ka < 5; ++ka)
+            for (int kb = 0; kb < 5; ++kb)
+                for (int off : { 0, 250, 500 })
+                    if (thorough || ((ka == 0 || ka == 2 || ka == 4) && (kb == 0 || kb == 2 || kb == 4)))
+                        gTime2.push_back({ p[0], p[1], ka, kb, off });
+    uint64_t nS = gSize.size(), nT = gTime.size(), nT2 = gTime2.size();
+    return vr::run(opt, nS + nT + nT2, [nS, nT](uint64_t idx, vr::Ctx& ctx) {
         try
         {
             if (idx < nS)
                 case_size(gSize[idx], ctx);
-            else
+            else if (idx < nS + nT)
                 case_time(gTime[idx - nS], ctx);
+            else
+                case_time2(gTime2[idx - nS - nT], ctx);
         }
         catch (const sim::HarnessError& e)
         {
